@@ -849,8 +849,12 @@ class Interp:
         key, neg = self.cond_key(test, st)
         st.conds.append((key, (not outcome) if neg else outcome))
         subst = self.subst_pure(st, test)
+        core_ = test
+        while isinstance(core_, ast.UnaryOp) and isinstance(core_.op, ast.Not):
+            core_ = core_.operand
+        arg_tags = self.tags(st, core_.args[0]) if isinstance(core_, ast.Call) and core_.args else frozenset()
         self.add(st, Ev('COND', test.lineno, key, (not outcome) if neg else outcome, None,
-                        {'node': subst, 'orig': test, 'tags': self.tested_value_tags(st, test)}))
+                        {'node': subst, 'orig': test, 'tags': self.tested_value_tags(st, test), 'arg_tags': arg_tags}))
         test_s = subst
         if isinstance(test_s, ast.BoolOp) and ((isinstance(test_s.op, ast.And) and outcome)
                                                or (isinstance(test_s.op, ast.Or) and not outcome)):
